@@ -74,6 +74,7 @@ def cases(tier, seed):
         out.append({"k": "big", "e": e})
     for k_ in (1, 2, 3):
         out.append({"k": "huge", "names": k_})
+    out.append({"k": "bigpowers"})
     out.sort(key=lambda c: {"grid3": 0, "grid2": 1, "text": 2, "pairs": 3}.get(c["k"], 4))   # longest first
     return out
 
@@ -447,6 +448,32 @@ def run_huge(case, R):
             expect(R, lab, f"exponent {e} over {names}", f, eq_model(want), tags, allow_error=True)
 
 
+def run_bigpowers(case, R):
+    """(c*q0**a)**n for every pair of a menu of bases and exponents whose product lies below, at and far beyond the
+    representable range (also beyond 2**32): the exact power or an error"""
+    A = [46341, 65536, 100000, 1114052]
+    N = [2, 3, 17, 24, 42950, 65536, 92682]
+    for a in A:
+        p, _ = build_block([a], [2])
+        R.state(("bigpowers", a))
+        for n in N:
+            want = V({mono1(a * n): exact_array(numpy.array([2 ** n if n < 60 else 0]))}, (1,))
+            if n >= 60:
+                # the coefficient would overflow int64 as well: only "error or the right monomial" is asked
+                ok = lambda got, a=a, n=n: (list(alpha(got).t) in ([mono1(a * n)], []) and list(alpha_raw(got).t) in ([mono1(a * n)], [])) or \
+                    f"(2*q0**{a})**{n} stored the monomials {list(alpha(got).t)[:3]}"
+            else:
+                ok = eq_model(want)
+            for lab, f in (("**", lambda: p ** n), ("numpoly.power", lambda: numpoly.power(p, n)), ("numpy.power", lambda: numpy.power(p, n))):
+                expect(R, lab, f"(2*q0**{a})**{n}", f, ok, ["bigpowers"], allow_error=True)
+        # with a second indeterminate the keys hold exponents up to 2**32-60
+        for a2, n2 in ((2 ** 30, 3), (2 ** 30, 4), (2 ** 31, 2), (2 ** 16, 3)):
+            sp = spec(("q0", "q1"), (), [((a2, 1), 2)])
+            q, mq = build_checked(sp), model_of(sp)
+            want = V({frozenset({("q0", a2 * n2), ("q1", n2)}): exact_array(numpy.array(2 ** n2))}, ())
+            expect(R, "**", f"(2*q0**{a2}*q1)**{n2}", lambda: q ** n2, eq_model(want), ["bigpowers", "two names"], allow_error=True)
+
+
 def filled_ndpoly(exponents, names):
     p = numpoly.ndpoly(exponents=exponents, shape=(), names=names, dtype="i8")
     raw = raw_view(p)
@@ -459,6 +486,8 @@ def run_case(case, R):
     k = case["k"]
     if k == "huge":
         return run_huge(case, R)
+    if k == "bigpowers":
+        return run_bigpowers(case, R)
     if k == "single":
         run_single(case, R)
     elif k == "pairs":
